@@ -5,24 +5,235 @@ import PqVerif.Model.FockRep
 /-!
 C01: the recurrence by which the Fock simulators lift an interferometer to Fock space computes the
 permanent with multiplicities (Laplace expansion along one copy of the first occupied output mode).
+
+* `sum_fiber`, `sum_equiv_expand`: a sum over bijections `C ≃ R` splits according to the column matched
+  to a fixed row, and the bijections with that match fixed are the bijections of the remainders;
+* `permSpec_expand`: `perm(U[m, v]) = Σ_j v_j · U[f, j] · perm(U[m − e_f, v − e_j])` for `m_f ≥ 1`;
+* `repP_eq_permSpec`, `fockRepP_eq_permSpec`: the executable recurrence equals `permSpec`.
 -/
 namespace Pq.FockRep
 open BigOperators Pq.Kernel
 
 variable {K : Type} [Field K] [CharZero K]
 
+section Helpers
+omit [CharZero K]
+
+section Abstract
+variable {C R C' R' : Type} [Fintype C] [Fintype R] [Fintype C'] [Fintype R']
+  [DecidableEq C] [DecidableEq R] [DecidableEq C'] [DecidableEq R']
+
+omit [Fintype C'] [Fintype R'] [DecidableEq C'] [DecidableEq R'] in
+theorem optionCongr_removeNone (e : Option C' ≃ Option R') (h : e none = none) :
+    (Equiv.removeNone e).optionCongr = e := by
+  apply Equiv.ext
+  intro x
+  cases x with
+  | none => simp [h]
+  | some x =>
+    have hx : ∃ x', e (some x) = some x' := by
+      cases hx : e (some x) with
+      | none => exact absurd (e.injective (hx.trans h.symm)) (by simp)
+      | some y => exact ⟨y, rfl⟩
+    simp [Equiv.removeNone_some e hx]
+
+/-- the bijections matching a fixed column `eC none` to a fixed row `eR none` are the bijections between the
+remaining columns and the remaining rows -/
+theorem sum_fiber (eC : Option C' ≃ C) (eR : Option R' ≃ R) (w : R → C → K) :
+    ∑ σ : C ≃ R with σ.symm (eR none) = eC none, ∏ c, w (σ c) c =
+      w (eR none) (eC none) * ∑ τ : C' ≃ R', ∏ c', w (eR (some (τ c'))) (eC (some c')) := by
+  rw [Finset.mul_sum]
+  symm
+  apply Finset.sum_bij (fun τ _ => (eC.symm.trans τ.optionCongr).trans eR)
+  · intro τ _
+    simp [Finset.mem_filter]
+  · intro τ _ τ' _ h
+    have : τ.optionCongr = τ'.optionCongr := by
+      apply Equiv.ext
+      intro x
+      have := Equiv.congr_fun h (eC x)
+      simpa using this
+    exact Equiv.optionCongr_injective this
+  · intro σ hσ
+    have hσ' : σ (eC none) = eR none := by
+      rw [← (Finset.mem_filter.mp hσ).2]; simp
+    refine ⟨Equiv.removeNone ((eC.trans σ).trans eR.symm), Finset.mem_univ _, ?_⟩
+    rw [optionCongr_removeNone _ (by simp [hσ'])]
+    apply Equiv.ext
+    intro x
+    simp
+  · intro τ _
+    rw [← Fintype.prod_equiv eC (fun x => w (((eC.symm.trans τ.optionCongr).trans eR) (eC x)) (eC x)) _
+      (fun _ => rfl), Fintype.prod_option]
+    simp
+
+/-- Laplace expansion of a sum over bijections along the row `eR none`; `eC c₀` is a way of removing the
+column `c₀` -/
+theorem sum_equiv_expand (r₀ : R) (w : R → C → K) :
+    ∑ σ : C ≃ R, ∏ c, w (σ c) c = ∑ c₀ : C, ∑ σ : C ≃ R with σ.symm r₀ = c₀, ∏ c, w (σ c) c :=
+  (Finset.sum_fiberwise _ _ _).symm
+
+end Abstract
+
+section Expand
+variable {n k : Nat}
+
+omit [Field K] in
+theorem swap_fst {ι : Type} [DecidableEq ι] (r : ι → Nat) (a b x : Σ i, Fin (r i)) (h : a.1 = b.1) :
+    (Equiv.swap a b x).1 = x.1 := by
+  rw [Equiv.swap_apply_def]
+  split_ifs with h1 h2
+  · rw [h1, h]
+  · rw [h2, h]
+  · rfl
+
+/-- removing the `l`-th copy of column `j` -/
+noncomputable def colEquiv (v : Fin k → Nat) (j : Fin k) (l : Fin (v j)) :
+    Option (Σ j', Fin (decRow v j j')) ≃ Σ j', Fin (v j') :=
+  (Equiv.ofBijective _ (unsplit_bijective v j (Nat.ne_of_gt (Fin.pos l)))).trans
+    (Equiv.swap (unsplit v j (Nat.ne_of_gt (Fin.pos l)) none) ⟨j, l⟩)
+
+theorem colEquiv_none (v : Fin k → Nat) (j : Fin k) (l : Fin (v j)) : colEquiv v j l none = ⟨j, l⟩ := by
+  simp [colEquiv]
+
+theorem colEquiv_some_fst (v : Fin k → Nat) (j : Fin k) (l : Fin (v j)) (x : Σ j', Fin (decRow v j j')) :
+    (colEquiv v j l (some x)).1 = x.1 := by
+  simp only [colEquiv, Equiv.trans_apply, Equiv.ofBijective_apply]
+  rw [swap_fst _ _ _ _ (by rfl)]
+  rfl
+
+/-- **Laplace expansion of the permanent with multiplicities** along one copy of the row `f` -/
+theorem permSpec_expand (A : Fin n → Fin k → K) (rows : Fin n → Nat) (cols : Fin k → Nat) (f : Fin n)
+    (hf : rows f ≠ 0) :
+    permSpec A rows cols =
+      ∑ j, (cols j : K) * (A f j * permSpec A (decRow rows f) (decRow cols j)) := by
+  unfold permSpec
+  refine (sum_equiv_expand (unsplit rows f hf none)
+    (fun (r : Σ i, Fin (rows i)) (c : Σ j, Fin (cols j)) => A r.1 c.1)).trans ?_
+  rw [Fintype.sum_sigma]
+  refine Finset.sum_congr rfl fun j _ => ?_
+  have key : ∀ l : Fin (cols j),
+      ∑ σ : (Σ j, Fin (cols j)) ≃ (Σ i, Fin (rows i)) with σ.symm (unsplit rows f hf none) = ⟨j, l⟩,
+        ∏ c, A (σ c).1 c.1 =
+      A f j * ∑ τ : (Σ j', Fin (decRow cols j j')) ≃ (Σ i, Fin (decRow rows f i)), ∏ c, A (τ c).1 c.1 := by
+    intro l
+    have h := sum_fiber (colEquiv cols j l) (Equiv.ofBijective _ (unsplit_bijective rows f hf))
+      (fun (r : Σ i, Fin (rows i)) (c : Σ j, Fin (cols j)) => A r.1 c.1)
+    simp only [colEquiv_none, Equiv.ofBijective_apply, colEquiv_some_fst] at h
+    rw [h]
+    rfl
+  rw [Finset.sum_congr rfl (fun l _ => key l), Finset.sum_const, Finset.card_univ, Fintype.card_fin,
+    nsmul_eq_mul]
+
+end Expand
+
+section Code
+
+omit [Field K] in
+theorem firstNonzero_none (l : List Nat) (h : firstNonzero l = none) : ∀ x ∈ l, x = 0 := by
+  induction l with
+  | nil => simp
+  | cons a l ih =>
+    unfold firstNonzero at h
+    split_ifs at h with ha
+    rw [Option.map_eq_none_iff] at h
+    intro x hx
+    rcases List.mem_cons.mp hx with rfl | hx
+    · simpa using ha
+    · exact ih h x hx
+
+omit [Field K] in
+theorem firstNonzero_some (l : List Nat) (f : Nat) (h : firstNonzero l = some f) :
+    f < l.length ∧ l.getD f 0 ≠ 0 := by
+  induction l generalizing f with
+  | nil => simp [firstNonzero] at h
+  | cons a l ih =>
+    unfold firstNonzero at h
+    split_ifs at h with ha
+    · obtain rfl : 0 = f := Option.some.inj h
+      simpa using ha
+    · obtain ⟨g, hg, rfl⟩ := Option.map_eq_some_iff.mp h
+      obtain ⟨h1, h2⟩ := ih g hg
+      exact ⟨by simp; omega, by simpa using h2⟩
+
+omit [Field K] in
+theorem all_zero_of_sum {d : Nat} (m : Fin d → Nat) (h : ∑ i, m i = 0) :
+    (vecList m).all (· == 0) = true := by
+  rw [List.all_eq_true]
+  intro x hx
+  have : x = 0 := List.sum_eq_zero_iff.mp ((vecList_sum m).trans h) x hx
+  simp [this]
+
+theorem foldl_range_eq (d : Nat) (c : Nat → Nat) (t : Nat → K) :
+    (List.range d).foldl (fun acc j => if c j = 0 then acc else acc + t j) 0 =
+      ∑ j : Fin d, if c j = 0 then 0 else t j := by
+  induction d with
+  | zero => simp
+  | succ d ih =>
+    rw [List.range_succ, List.foldl_append, ih, Fin.sum_univ_castSucc]
+    simp only [List.foldl_cons, List.foldl_nil, Fin.val_castSucc, Fin.val_last]
+    split_ifs <;> simp
+
+theorem repP_eq_permSpec {d : Nat} (U : Fin d → Fin d → K) (n : Nat) (m v : Fin d → Nat)
+    (hm : ∑ i, m i = n) (hv : ∑ j, v j = n) :
+    repP (matList U) n (vecList m) (vecList v) = permSpec U m v := by
+  induction n generalizing m v with
+  | zero =>
+    rw [repP, all_zero_of_sum m hm, all_zero_of_sum v hv, permSpec_of_sum_zero U m v hm hv]
+    simp
+  | succ n ih =>
+    rw [repP]
+    cases hfn : firstNonzero (vecList m) with
+    | none =>
+      exfalso
+      have := List.sum_eq_zero (firstNonzero_none _ hfn)
+      rw [vecList_sum, hm] at this
+      omega
+    | some f' =>
+      obtain ⟨hlt, hne⟩ := firstNonzero_some _ _ hfn
+      rw [vecList_length] at hlt
+      obtain ⟨f, rfl⟩ : ∃ f : Fin d, f.val = f' := ⟨⟨f', hlt⟩, rfl⟩
+      rw [vecList_getD] at hne
+      simp only
+      rw [vecList_length, foldl_range_eq d (fun j => (vecList v).getD j 0), permSpec_expand U m v f hne]
+      refine Finset.sum_congr rfl fun j _ => ?_
+      rw [vecList_getD]
+      split_ifs with hj
+      · simp [hj]
+      · have h1 : dec (vecList m) f = vecList (decRow m f) := by
+          unfold dec; rw [vecList_getD, vecList_set]; rfl
+        have h2 : dec (vecList v) j = vecList (decRow v j) := by
+          unfold dec; rw [vecList_getD, vecList_set]; rfl
+        have h3 : ((matList U).getD f []).getD j 0 = U f j := by
+          have := rowAt_matList U f
+          unfold rowAt at this
+          rw [this]
+          simp [List.getD_eq_getElem?_getD]
+        rw [h1, h2, h3, ih (decRow m f) (decRow v j)
+          (by have := sum_decRow m f hne; omega) (by have := sum_decRow v j hj; omega)]
+        ring
+
+end Code
+
+end Helpers
+
+omit [CharZero K] in
 /-- `P[m, v] = perm(U[m, v])`: rows of `U` repeated according to the output occupation `m`, columns
 according to the input occupation `v` -/
 theorem fockRepP_eq_permSpec {d : Nat} (U : Fin d → Fin d → K) (m v : Fin d → Nat)
     (h : ∑ i, m i = ∑ j, v j) :
     fockRepP (matList U) (vecList m) (vecList v) = permSpec U m v := by
-  sorry
+  unfold fockRepP
+  rw [vecList_sum, vecList_sum, if_neg (by simpa using h)]
+  exact repP_eq_permSpec U _ m v rfl h.symm
 
+omit [CharZero K] in
 /-- different particle numbers are never mixed (block structure: a passive gate conserves the
 particle number exactly, also in the truncated space) -/
 theorem fockRepP_zero_of_ne {d : Nat} (U : Fin d → Fin d → K) (m v : Fin d → Nat)
     (h : ∑ i, m i ≠ ∑ j, v j) :
     fockRepP (matList U) (vecList m) (vecList v) = 0 := by
-  sorry
+  unfold fockRepP
+  rw [vecList_sum, vecList_sum, if_pos h]
 
 end Pq.FockRep
